@@ -173,6 +173,8 @@ def check_roundtrip(ctx, case):
     if any(d.get('run_missing') or d.get('value_missing') for d in prog['ins']) or any(
             d.get('fail_missing') is False for d in prog['outs']):
         shapes.add('missing-entry-policies')
+    if any(s_['t'] == 'nested_op' and s_.get('skipped') for s_ in prog['steps']):
+        shapes.add('calls-operation-of-skipped-class')
     if any(d.get('fallback') for d in prog['ins']):
         shapes.add('fallback-aliases')
         live = set(d['alias'] for d in prog['ins'])
@@ -207,6 +209,10 @@ def with_fallbacks(draw, progs):
         for s_ in PS.iter_steps(prog['steps']):
             if s_['t'] in ('in', 'out') and s_.get('beh') == 'raise' and draw(st.booleans()):
                 s_['exc'] = draw(st.sampled_from(['KeyError', 'LookupError']))
+    # the operation uses a helper operation of a class configured as skipped (plain code while recording and replaying)
+    if draw(st.sampled_from([False, False, True])):
+        prog['steps'].insert(draw(st.integers(0, len(prog['steps']))),
+                             {'t': 'nested_op', 'inner': draw(st.sampled_from(['ret', 'ret', 'raise'])), 'skipped': True})
     if not ins or not draw(st.booleans()):
         return PS.assign_sids(prog)
     pool = ['legacy', 'in.n1', 'cfg.n2']
